@@ -52,6 +52,43 @@ CHECKS["C05"] = dict(
     design="5/C05",
 )
 
+TABLE_NOTE = (
+    "Model: OdfModel/Rle.lean (element_cached.py incl. the position-map arithmetic) + OdfModel/Table.lean (table.py / row.py), spec OdfModel/Grid.lean. "
+    "NOT in the model: the per-object caches of wrapper objects (_indexes, the _rmap of a cached Row object), row/column styles, spans, and the order of "
+    "column and row elements among the table's children - these are decided by the correspondence / lxml oracles of the check at every step. The history "
+    "theorems exclude one state: rows without any declared column (only reachable by deleting the last column of a table that has rows), where the property "
+    "does not say what a later operation should declare; histories are cut there on both sides. Bulk setters (set_values, set_cells, set_row_values, "
+    "set_row_cells, set_column_values) are in the executable model and the correspondence but not yet in the proved alphabet. "
+)
+CHECKS["C01"] = dict(
+    text="Refinement proof: for every coherent run-length state, every operation of the alphabet (set/insert/append/delete of cells, rows, columns, with "
+    "repeats on arguments and targets), every integer coordinate and every repeat >= 1, the model step succeeds and denotes exactly the list-of-lists "
+    "operation (step_refines); by induction every finite history does (history_refines, history_reads); the three vault edits incl. overlap trimming are "
+    "proved at the run-length level. Correspondence: ~7000 steps per quick run of random histories (Table API and Row API) over random encodings, model vs "
+    "implementation (lxml reading) vs Lean spec grid vs Python reference grid, all reads compared after every step.",
+    note=TABLE_NOTE,
+    technique="Lean 4 refinement proof (abstraction function, per-op simulation, induction over histories) + differential correspondence on histories",
+    design="5/C01",
+)
+CHECKS["C02"] = dict(
+    text="Proved: every vault edit keeps the stored position map equal to the one a fresh parse computes, find_odf_idx on a coherent map returns the run that "
+    "covers the position, hence after every history the live table IS the fresh parse of its own XML (reparse_id, history_fresh) and sizes are the sums of "
+    "repeats. Decided by correspondence only (partial): caches of wrapper objects - live vs Element.from_tag(serialize()) vs independent lxml expansion "
+    "after every step with cache-filling reads forced first, plus save+reload.",
+    note=TABLE_NOTE,
+    technique="Lean 4 invariant proof (position maps) + three-way differential check live / fresh parse / independent reader after every step",
+    design="5/C02",
+)
+CHECKS["C07"] = dict(
+    text="Proved: along every history every stored repeat stays >= 1 (so the attribute written is absent or >= 2 and reads back as the count), no row gets wider "
+    "than the declared columns, the first row declares the columns, reported size = sums of repeats (history_structure, fit_preserved, first_row_declares); "
+    "the table-name check generated from the source regex accepts exactly the office rule, the named-range check exactly letters/digits/underscore minus the "
+    "A1 form (table_name_rule, range_name_rule, for all strings). Correspondence at run-length level + an lxml walk of every listed rule after every step.",
+    note=TABLE_NOTE + "Name rules: `strip()` is modelled on the four ASCII blanks; the named-range theorem is over the printable ASCII alphabet of the API check.",
+    technique="Lean 4 invariant proofs + decide over tables regenerated from the source (regex alternatives, forbidden set) + structural lxml oracle",
+    design="5/C07",
+)
+
 NOT_YET = {}
 
 
